@@ -161,9 +161,19 @@ def Sig.flat (s : Sig) : Bool := (!s.varargs || s.kwonly.isEmpty) && (s.posonly 
     and `**kwargs` (the flat print then cannot tell a `(name, value)` tuple passed in `*args` from a keyword) -/
 def Sig.ok (s : Sig) : Bool := s.flat && !(s.varargs && s.varkw)
 
-/-- calls on which the default key is faithful: the signature is flat and, when it has both `*args` and
+/-- calls on which the default key is a flat print of the binding - a condition on THIS call, not on the whole
+    signature: when the signature combines `*args` with keyword-only parameters the call passes no overflow positional
+    (otherwise the key drops keyword-only values and mistakes overflow positionals for them), and when it combines
+    positional-only parameters with `**kwargs` no keyword has the name of a positional-only parameter (otherwise the
+    key drops that keyword, or takes it for the parameter).  `Sig.flat` implies it for every call (`callFlat_of_flat`). -/
+def callFlat (s : Sig) (args : List Nat) (kw : List (Nat × Nat)) : Bool :=
+  (!(s.varargs && !s.kwonly.isEmpty) || decide (args.length ≤ s.pos.length)) &&
+  (!(s.posonly != 0 && s.varkw) || kw.all fun p => !s.poNames.contains p.1)
+
+/-- calls on which the default key is faithful: `callFlat` and, when the signature has both `*args` and
     `**kwargs`, no positional argument is a `(name, value)` 2-tuple -/
-def callOk (s : Sig) (args : List Nat) : Bool := s.flat && (!(s.varargs && s.varkw) || noPair args)
+def callOk (s : Sig) (args : List Nat) (kw : List (Nat × Nat)) : Bool :=
+  callFlat s args kw && (!(s.varargs && s.varkw) || noPair args)
 
 /-- which of the three known ways of conflating calls a signature is open to (the name is the spec clause) -/
 def Sig.defect (s : Sig) : Option String :=
@@ -254,9 +264,14 @@ inductive Op where
   | threadEnd (th : Nat)             -- the thread with token `th` has finished: its Thread object is never seen again
                                      -- (the OS may hand its ident / name to a LATER thread, which is a different token);
                                      -- nothing in tools.py reacts to it - the entries the thread left behind stay
+  | await (t : Nat)                  -- somebody who holds task t (a caller that yielded it, `.value()`, a subscriber of
+                                     -- `on_computed`) reads its outcome: the answer is what this caller RECEIVES
+  | aioCall (c : Spell)              -- `<recv>.fn.asynq(*args, **kw)` issued in ASYNCIO mode (under a running `fn.asyncio()`):
+                                     -- tools.py:355-356 hand the call to `self.fn.asyncio` BEFORE a key is made - the answer
+                                     -- is a coroutine, never a task; no table access; every such call runs the body by itself
   | outside (what : Nat)             -- an event of ANOTHER feature happens on the thread, between two operations of the history:
-                                     -- 1 the function is used in asyncio mode (`.asyncio()`, or `.asynq()` under a running
-                                     --   `fn.asyncio()`: tools.py:352-357 hand the call to `self.fn.asyncio` BEFORE the key is made),
+                                     -- 1 the function is used in asyncio mode through `.asyncio()` (DeduplicateDecorator.asyncio,
+                                     --   tools.py:352-353: no table access),
                                      -- 2 a debug / profiling option is switched, 3 asynq.mock.patch replaces and restores the
                                      -- function, 4 a receiver instance / a bound wrapper is copied, 5 the garbage collector runs,
                                      -- 6 the synchronous call `f(args)` (AsyncDecorator.__call__ -> _call_pure: no table access).
@@ -266,12 +281,15 @@ inductive Op where
 def Op.name : Op → String
   | .call _ => "call" | .dirty _ => "dirty" | .start _ => "start" | .resume _ _ => "resume"
   | .suspend _ => "suspend" | .complete _ _ => "complete" | .threadEnd _ => "threadEnd" | .outside _ => "outside"
+  | .await _ => "await" | .aioCall _ => "aioCall"
 
 inductive Res where
   | ret (t : Nat) (new : Bool)   -- the task returned, and whether this call created it
   | typeError
   | unit
   | binding (b : Binding)        -- what the starting body received
+  | got (o : Option Outc)        -- what a reader of the task received (`none`: the task has not completed)
+  | coro                         -- a coroutine object (asyncio mode): not a task
   | bad                          -- the operation does not make sense in this state (unknown function / task, a second
                                  -- start, anything after completion); never observed on the implementation
   deriving Repr, DecidableEq, Inhabited
@@ -329,14 +347,14 @@ def step (fns : List FnDecl) (s : St) : Op → St × Res
     match s.tasks[t]? with
     | none => (s, .bad)
     | some task =>
-      if task.out.isSome then (s, .bad)
+      if task.out.isSome || !task.started then (s, .bad)            -- only a started generator can be resumed
       else if thrown then (s, .unit)                                 -- `throw` path: `running` is not set
       else (setTask s t { task with running := true }, .unit)
   | .suspend t =>
     match s.tasks[t]? with
     | none => (s, .bad)
     | some task =>
-      if task.out.isSome then (s, .bad)
+      if task.out.isSome || !task.started then (s, .bad)            -- only a started generator can yield
       else (setTask s t { task with running := false }, .unit)
   | .complete t o =>
     match s.tasks[t]? with
@@ -348,6 +366,11 @@ def step (fns : List FnDecl) (s : St) : Op → St × Res
         -- `callback` removes the entry of the key it closed over only if it still holds THIS task: after dirty()
         -- the key may already belong to a newer in-flight task (tools.py:366-370)
         (if task.reg && mget s'.table task.key == some t then { s' with table := merase s'.table task.key } else s', .unit)
+  | .await t =>                      -- FutureBase.value() / the value sent into the awaiting generator: the stored outcome
+    match s.tasks[t]? with
+    | none => (s, .bad)
+    | some task => (s, .got task.out)
+  | .aioCall _ => (s, .coro)        -- tools.py:355-356: `return self.fn.asyncio(*args, **kwargs)`; the table is not touched
   | .threadEnd _ => (s, .unit)      -- no code runs: the table is process-wide and keyed by the Thread OBJECT
   | .outside _ => (s, .unit)        -- code of other features runs; none of it touches the table
 
@@ -398,7 +421,7 @@ def opOk (fns : List FnDecl) : Op → Bool
   | .call c | .dirty c =>
     match fns[c.fn]? with
     | none => true
-    | some d => callOk d.sig (effArgs d c)
+    | some d => callOk d.sig (effArgs d c) c.kw
   | _ => true
 
 def histOk (fns : List FnDecl) (ops : List Op) : Bool := ops.all (opOk fns)
@@ -438,6 +461,7 @@ structure WTask where
   started : Bool    -- its body has started
   running : Bool    -- the body is executing (between start/resume and suspend/completion)
   done : Bool
+  out : Option Outc := none   -- the outcome its body ended with (the `complete` operation)
   deriving Repr, DecidableEq, Inhabited
 
 /-- what the observer knows.  `poss` gives, for every call (reference key), the SET of states of its table entry
@@ -503,7 +527,15 @@ def watchStep (fns : List FnDecl) (w : Watch) (ob : Obs) : Except String Watch :
       | .error _ =>
         -- not a well-formed call: the statement is silent, but nothing may be created
         match ob.res with
-        | .ret t new => if new then .error "invalid-call-created" else if t < w.info.length then .ok w else .error "token"
+        -- ... and an existing task it is answered with must be an in-flight, undirtied task of THIS function on THIS
+        -- thread (the code answers with the task stored under the key it computed from the ill-formed arguments)
+        | .ret t new =>
+          if new then .error "invalid-call-created"
+          else match w.info[t]? with
+            | none => .error "token"
+            | some x =>
+              if x.rk.fn == c.fn && x.rk.th == c.th && !x.done && (pget w.poss x.rk).contains (some t) then .ok w
+              else .error "invalid-call-shared"
         | .typeError => .ok w
         | _ => .error "call-result"
       | .ok b =>
@@ -553,12 +585,18 @@ def watchStep (fns : List FnDecl) (w : Watch) (ob : Obs) : Except String Watch :
     match w.info[t]? with
     | none => bad "unknown-task"
     -- however it is resumed (send or throw), from now on the body is executing: calls it makes are "inside"
-    | some x => if x.done then bad "after-done" else unit (wset w t { x with running := true }) "schedule-result"
+    | some x =>
+      if x.done then bad "after-done"
+      else if !x.started then bad "not-started"
+      else unit (wset w t { x with running := true }) "schedule-result"
   | .suspend t =>
     match w.info[t]? with
     | none => bad "unknown-task"
-    | some x => if x.done then bad "after-done" else unit (wset w t { x with running := false }) "schedule-result"
-  | .complete t _ =>
+    | some x =>
+      if x.done then bad "after-done"
+      else if !x.started then bad "not-started"
+      else unit (wset w t { x with running := false }) "schedule-result"
+  | .complete t o =>
     match w.info[t]? with
     | none => bad "unknown-task"
     | some x =>
@@ -566,9 +604,18 @@ def watchStep (fns : List FnDecl) (w : Watch) (ob : Obs) : Except String Watch :
       else
         -- the in-flight period of this call ends only if this task still is its in-flight task: the completion
         -- of an older, dirtied task must NOT end the period of the newer one
-        let w' := wset w t { x with running := false, done := true }
+        let w' := wset w t { x with running := false, done := true, out := some o }
         unit { w' with poss := pset w.poss x.rk ((pget w.poss x.rk).map fun o => if o = some t then none else o) }
           "schedule-result"
+  -- "all callers receive the same value or error": whoever reads task t receives exactly the outcome its body ended
+  -- with (nothing before the completion)
+  | .await t =>
+    match w.info[t]? with
+    | none => bad "unknown-task"
+    | some x => if ob.res == .got x.out then .ok w else .error "received"
+  -- asyncio mode is outside the statement (no task is returned at all); what is judged: the answer is a coroutine and
+  -- nothing in flight is touched
+  | .aioCall _ => if ob.res == .coro then .ok w else .error "asyncio-mode-result"
   -- the end of a thread ends nothing: the calls it left in flight stay in flight (for that thread token only)
   | .threadEnd _ => unit w "schedule-result"
   -- an event of another feature ends nothing and starts nothing: whatever is in flight stays in flight
@@ -576,20 +623,84 @@ def watchStep (fns : List FnDecl) (w : Watch) (ob : Obs) : Except String Watch :
 
 /-- what an observation may say about `len(DeduplicateDecorator.tasks)`, given the size after the previous one:
     a call that returns a new task adds at most one entry, a dirty() / completion that returns normally removes
-    entries at most, everything else (a call answered with an existing task, anything that raises, scheduling, the
-    end of a thread) leaves the size alone -/
-def sizeOk (before : Nat) (ob : Obs) : Bool :=
+    at most ONE entry, everything else (a call answered with an existing task, anything that raises, scheduling, reads,
+    asyncio-mode calls, the end of a thread) leaves the size alone -/
+def sizeBound (before : Nat) (ob : Obs) : Bool :=
   match ob.op, ob.res with
   | .call _, .ret _ true => before ≤ ob.size && ob.size ≤ before + 1
-  | .dirty _, .unit => ob.size ≤ before
-  | .complete _ _, .unit => ob.size ≤ before
+  | .dirty _, .unit => ob.size ≤ before && before ≤ ob.size + 1
+  | .complete _ _, .unit => ob.size ≤ before && before ≤ ob.size + 1
   | _, _ => ob.size == before
+
+/-- what the observer knows about the table entry of a WELL-FORMED call before the operation: `some true` = certainly
+    nothing in flight, `some false` = certainly an in-flight task, `none` = both possible / not a well-formed call -/
+def entryKnown (fns : List FnDecl) (w : Watch) (c : Spell) : Option Bool :=
+  match fns[c.fn]? with
+  | none => none
+  | some d =>
+    match d.sig.bind (effArgs d c) c.kw with
+    | .error _ => none
+    | .ok b =>
+      let P := pget w.poss { fn := c.fn, th := c.th, b := b }
+      if P.all (· == none) then some true else if !P.contains none then some false else none
+
+/-- where the observer KNOWS the state of the entry the size is determined: a new task for a call with nothing in
+    flight is stored (+1), a new task for a call whose in-flight task is executing is private (+0), a dirty() of a
+    call with nothing in flight removes nothing and one of a call that is in flight removes exactly its entry (-1), the
+    completion of a task that still is the in-flight task of its call removes exactly its entry (-1), the completion of
+    a dirtied or private task removes nothing -/
+def sizeExact (fns : List FnDecl) (w : Watch) (before : Nat) (ob : Obs) : Bool :=
+  match ob.op with
+  | .call c =>
+    match ob.res with
+    | .ret _ true =>
+      match entryKnown fns w c with
+      | some true => ob.size == before + 1
+      | some false => ob.size == before
+      | none => true
+    | _ => true
+  | .dirty c =>
+    match ob.res with
+    | .unit =>
+      match entryKnown fns w c with
+      | some true => ob.size == before
+      | some false => ob.size + 1 == before
+      | none => true
+    | _ => true
+  | .complete t _ =>
+    match ob.res with
+    | .unit =>
+      match w.info[t]? with
+      | none => true
+      | some x =>
+        let P := pget w.poss x.rk
+        if P.all (· == some t) then ob.size + 1 == before          -- certainly still the in-flight task of its call: its entry goes
+        else if !P.contains (some t) then ob.size == before        -- certainly dirtied / private: no entry of its own to remove
+        else true
+    | _ => true
+  | _ => true
+
+def sizeOk (fns : List FnDecl) (w : Watch) (before : Nat) (ob : Obs) : Bool :=
+  sizeBound before ob && sizeExact fns w before ob
+
+/-- the name of a size failure: one of the known key conflations when the operation is a well-formed call / dirty()
+    of a function that is open to it (the conflated key makes the table differ from what the bindings say) -/
+def sizeClause (fns : List FnDecl) (w : Watch) (ob : Obs) : String :=
+  match ob.op with
+  | .call c | .dirty c =>
+    match fns[c.fn]? with
+    | none => "size"
+    | some d =>
+      match d.sig.bind (effArgs d c) c.kw with
+      | .error _ => "size"
+      | .ok b => (conflation d w c.fn b).getD "size"
+  | _ => "size"
 
 def watchRun (fns : List FnDecl) (w : Watch) (size : Nat) : List Obs → Except String Watch
   | [] => .ok w
   | ob :: obs =>
     match watchStep fns w ob with
-    | .ok w' => if sizeOk size ob then watchRun fns w' ob.size obs else .error ("size@" ++ ob.op.name)
+    | .ok w' => if sizeOk fns w size ob then watchRun fns w' ob.size obs else .error (sizeClause fns w ob ++ "@" ++ ob.op.name)
     | .error e => .error (e ++ "@" ++ ob.op.name)
 
 /-- `Spec.C12`: the whole history is accepted -/
@@ -626,6 +737,32 @@ def DecoObj.apply (o : DecoObj) (s : Sig) : DecoObj × KeyFn :=
   match o.captured with
   | some g => (o, g)
   | none => (o, .ofSig s)
+
+/-- what a keygetter answers for `(args, kwargs)`: the default one is get_args_tuple over the captured names and
+    defaults; a caller's own keygetter is not modelled (`.error 0`) -/
+def KeyFn.apply : KeyFn → List Nat → List (Nat × Nat) → Except Nat (List KeyElem)
+  | .ofSig s, args, kw => s.key args kw
+  | .custom _, _, _ => .error 0
+
+/-- a key tuple as the harness reads it off the real keygetter: a list of value tokens (a `(name, value)` element is
+    the token of that 2-tuple) -/
+def keyOfToks (xs : List Nat) : List KeyElem := xs.map .ofVal
+
+/-- one probe of the decoration phase: the keygetter the REAL decorated function `fn` carries (attribute `keygetter`)
+    was applied to `(args, kw)` and answered `ans` (`none` = TypeError) -/
+structure KgProbe where
+  fn : Nat
+  args : List Nat
+  kw : List (Nat × Nat)
+  ans : Option (List Nat)
+  deriving Repr, DecidableEq, Inhabited
+
+/-- does the keygetter `k` explain the probe? -/
+def KgProbe.agrees (p : KgProbe) (k : KeyFn) : Bool :=
+  match k.apply p.args p.kw, p.ans with
+  | .ok tup, some xs => tup == keyOfToks xs
+  | .error _, none => true
+  | _, _ => false
 
 def setObj (objs : List DecoObj) (i : Nat) (o : DecoObj) : List DecoObj := objs.set i o
 
